@@ -36,6 +36,7 @@ type chip struct {
 	seenIA   [][]byte                      // data fields of INTERNAL AUTHENTICATE
 	sentIA   [][]byte                      // responses to them
 	problems []string
+	failNext bool // answer the next INTERNAL AUTHENTICATE with 6F00 (once)
 }
 
 func sw(data []byte, status uint16) []byte {
@@ -85,6 +86,11 @@ func (c *chip) Transceive(cla, ins, p1, p2 int, data []byte, le int, encoded []b
 		c.seenIA = append(c.seenIA, append([]byte{}, cmd.Data...))
 		if len(cmd.Data) != 8 || cmd.Ne == 0 {
 			return sw(nil, 0x6700)
+		}
+		if c.failNext {
+			c.failNext = false
+			c.sentIA = append(c.sentIA, nil)
+			return sw(nil, 0x6F00)
 		}
 		rsp := c.sign(cmd.Data)
 		c.sentIA = append(c.sentIA, rsp)
@@ -268,6 +274,38 @@ func TestFlowChallenge(t *testing.T) {
 			evid.Fail(rt, "flow", repro, "response for another challenge accepted (mode %s)", mode)
 		}
 		evid.Count("responses-presented", 1)
+
+		// A caller-supplied challenge stays in force for the object: when Active Authentication is
+		// run again (a retry after a failed INTERNAL AUTHENTICATE, or simply a second run) the same
+		// challenge is transmitted and recorded.
+		if mode == "caller" {
+			retries := rapid.IntRange(1, 3).Draw(rt, "reruns")
+			failFirst := rapid.Bool().Draw(rt, "rerun-after-chip-error")
+			for k := 0; k < retries; k++ {
+				before := len(ch.seenIA)
+				if failFirst && k == 0 {
+					good := ch.sign
+					ch.failNext = true
+					res, err = aa.DoActiveAuth()
+					ch.sign = good
+					if err == nil && res != nil && res.Success {
+						evid.Fail(rt, "flow-rerun", repro, "Active Authentication reported successful although INTERNAL AUTHENTICATE was refused with 6F00")
+					}
+				} else {
+					res, err = aa.DoActiveAuth()
+					if err != nil || res == nil || !res.Success {
+						evid.Fail(rt, "flow-rerun", repro, "run %d of Active Authentication on the same object failed against the genuine chip: %v", k+2, err)
+					}
+					if res.Evidence == nil || !bytes.Equal(res.Evidence.Nonce, chal) {
+						evid.Fail(rt, "flow-rerun", repro, "run %d recorded another nonce than the caller's challenge %x", k+2, chal)
+					}
+				}
+				if len(ch.seenIA) != before+1 || !bytes.Equal(ch.seenIA[before], chal) {
+					evid.Fail(rt, "flow-rerun", repro, "run %d of Active Authentication on the same object transmitted %x, the caller's challenge is %x", k+2, ch.seenIA[before:], chal)
+				}
+				evid.Count("flow-reruns", 1)
+			}
+		}
 	})
 }
 
